@@ -224,11 +224,11 @@ Proof.
   apply existsb_app_false in HO. destruct HO as [_ HO]. apply existsb_app_false in HO. destruct HO as [HO _].
   apply existsb_app_false in HB. destruct HB as [_ HB]. apply existsb_app_false in HB. destruct HB as [_ HB].
   rewrite HC, HB.
-  assert (EK : emit_kf_ok T ow m (c_cls c) = true).
-  { destruct (emit_kf_ok T ow m (c_cls c)); [reflexivity|cbv in HE; discriminate]. }
-  assert (EO : emit_other_ok T ow m (c_cls c) = true).
-  { destruct (emit_other_ok T ow m (c_cls c)); [reflexivity|cbv in HO; discriminate]. }
-  assert (EA : emit_ok T ow m (c_cls c) = true).
+  assert (EK : emit_kf_ok T g ow m (c_cls c) = true).
+  { destruct (emit_kf_ok T g ow m (c_cls c)); [reflexivity|cbv in HE; discriminate]. }
+  assert (EO : emit_other_ok T g ow m (c_cls c) = true).
+  { destruct (emit_other_ok T g ow m (c_cls c)); [reflexivity|cbv in HO; discriminate]. }
+  assert (EA : emit_ok T g ow m (c_cls c) = true).
   { unfold emit_ok, emit_kf_ok, emit_other_ok in *. rewrite forallb_forall in *. intros kb Hkb.
     specialize (EK kb Hkb). specialize (EO kb Hkb).
     destruct (snd kb); auto. destruct (kf_kind (fst kb)); simpl in *; discriminate. }
